@@ -195,7 +195,7 @@ def validate_fs_traces(results, specs, chunk=400):
 
 def blank_raw(ev, case):
     return dict(ev=ev, case=case, op="", nr="", dfd=-1, dclass="", d2class="", path="", path2="", flags=0, resolve=0, ret=0,
-                fd=-1, newfd=-1, cmd=0, intree=False, lent=[], opened=[], closed=[], changed=[], retfd=-1, wpid="", traced=False)
+                fd=-1, newfd=-1, cmd=0, intree=False, lent=[], opened=[], closed=[], changed=[], retfd=-1, wpid="", traced=False, reqnf=False)
 
 
 def project_raw(res, case_spec):
@@ -224,6 +224,8 @@ def project_raw(res, case_spec):
         for e in per_call.get(j, []):
             s = blank_raw("sys", cid)
             s["op"] = c.get("op", "")
+            # did the caller of a procfs open pass O_NOFOLLOW?  (then no link at all may be followed on its behalf)
+            s["reqnf"] = c.get("op") in ("proc_open", "proc_open_follow") and bool((c.get("oflags") or 0) & O["NOFOLLOW"])
             s["nr"] = e["nr"]
             if "dfd" in e:
                 s["dfd"] = e["dfd"]
